@@ -1,6 +1,7 @@
 package props
 
 import (
+	"go/token"
 	"fmt"
 	"go/ast"
 	"go/types"
@@ -624,6 +625,7 @@ func checkLookupJoin(c *core.Ctx, ids map[string]int64) {
 		c.Decide(ok, "LOOKUP", key+"/context", outer.Produce.Pos(), len(outs), "joined.Run(ctx.WithRecord(sourceRecord), …)", "the joined side must be run with the source record in its variable context (ctx.WithRecord("+rec+")); it is run with "+ctxArg)
 		_ = metaArg
 	}
+	checkLookupUndoOrder(c, fn, key, outer.Produce, inner.Call)
 	// layout and retraction XOR
 	src := outer.Produce.Type.Params.List[1].Names[0].Name
 	jn := inner.Produce.Type.Params.List[1].Names[0].Name
@@ -659,9 +661,19 @@ func checkLookupJoin(c *core.Ctx, ids map[string]int64) {
 			for _, o := range outs {
 				var rec absint.Val
 				var copies []string
+				buffered := false
 				for _, e := range o.Events {
 					if e.Name == "PRODUCE" && len(e.Args) == 2 {
 						rec = e.Args[1]
+					}
+					if strings.HasPrefix(e.Name, "append") && len(e.Args) >= 1 {
+						// the row is kept to be undone after the joined stream has finished (retracted source record)
+						for _, av := range e.Args {
+							if o.Field(av, "Retraction") != nil && o.Field(av, "Values") != nil {
+								rec = av
+								buffered = true
+							}
+						}
 					}
 					if e.Name == "copy" {
 						copies = append(copies, e.Args[0].Canon()+" ← "+e.Args[1].Canon())
@@ -669,6 +681,14 @@ func checkLookupJoin(c *core.Ctx, ids map[string]int64) {
 				}
 				if rec == nil {
 					bad = "no row produced"
+					continue
+				}
+				if a != buffered {
+					if a {
+						bad = "for a retracted source record the joined rows are forwarded as they come: the joined stream's own changelog (+x −x +y) is then undone front to back (−x +x −y), retracting x while it is already gone — they must be kept and undone last to first"
+					} else {
+						bad = "rows for an added source record must be produced right away"
+					}
 					continue
 				}
 				if rt := o.Field(rec, "Retraction"); rt == nil || absint.IsTrue(rt) != (a != b) || !absint.IsConst(rt) {
@@ -686,6 +706,31 @@ func checkLookupJoin(c *core.Ctx, ids map[string]int64) {
 			c.Decide(bad == "" && len(outs) > 0, "LOOKUP", ckey, inner.Produce.Pos(), len(outs), "", bad)
 		}
 	}
+}
+
+// checkLookupUndoOrder: the rows kept for a retracted source record are produced after the joined stream has finished,
+// last to first.
+func checkLookupUndoOrder(c *core.Ctx, fn *core.FuncRef, key string, outer *ast.FuncLit, innerCall *ast.CallExpr) {
+	reverse := false
+	ast.Inspect(outer.Body, func(n ast.Node) bool {
+		fs, ok := n.(*ast.ForStmt)
+		if !ok || fs.Pos() < innerCall.End() {
+			return true
+		}
+		if inc, ok := fs.Post.(*ast.IncDecStmt); !ok || inc.Tok != token.DEC {
+			return true
+		}
+		idx := core.ExprStr(fs.Post.(*ast.IncDecStmt).X)
+		ast.Inspect(fs.Body, func(m ast.Node) bool {
+			if call, ok := m.(*ast.CallExpr); ok && core.ExprStr(call.Fun) == "produce" && len(call.Args) == 2 && strings.HasSuffix(core.ExprStr(call.Args[1]), "["+idx+"]") {
+				reverse = true
+			}
+			return true
+		})
+		return true
+	})
+	c.Decide(reverse, "LOOKUP", key+"/undo order", outer.Pos(), 1, "kept rows are produced last to first after the joined stream has finished",
+		"the rows kept for a retracted source record are not produced in reverse order after the joined run: undoing +x −x +y front to back retracts x while it is absent")
 }
 
 func checkOuterFlags(c *core.Ctx) {
